@@ -47,6 +47,12 @@ pub fn spec(id: &str) -> Option<HistProp> {
             thorough: 20_000,
             rule: "TTL-heavy histories (ephemeral with a tail follower, time:N around the expiry instant, head:K with K 1..4 and u32::MAX); oracle: ephemeral delivered to the follower and never stored, expired frames never in a stream read and gone after read+drain, <=N frames (the newest) where the newest was appended with head:N; non-trivial = an expiry observed through read_sync and through read, or a head:K eviction with K>=2; distinct by op-kind sequence hash",
         },
+        "C13" => HistProp {
+            id: "C13",
+            quick: 480,
+            thorough: 10_000,
+            rule: "request sequences (<=25) over all HTTP routes written as raw HTTP/1.1 to the store's unix socket: valid appends (Content-Length and chunked bodies, xs-meta, ttl, context), imports, removes, lookups, heads, NDJSON and SSE reads with last-id/limit/context-id, interleaved with requests that must be refused (bad ids, TTLs, contexts, xs-meta payloads incl. raw non-ASCII bytes, option strings, CAS hashes, import bodies, unknown methods); after every request the store is compared with the reference model through the Store API; non-trivial = a refused request between two succeeding mutations, or an SSE read, or a malformed xs-meta; distinct by op-kind sequence hash",
+        },
         _ => return None,
     })
 }
@@ -73,6 +79,34 @@ fn nontrivial(id: &str, case: &HistCase, fl: &Flags) -> bool {
         "C07" => fl.reg_then_reopen_with_change,
         "C08" => fl.gc_removed_with_neighbour,
         "C09" => (fl.expiry_seen_sync && fl.expiry_seen_stream) || fl.eviction_k2,
+        "C13" => {
+            let mut seen_mut = false;
+            let mut bad_after_mut = false;
+            let mut sandwiched = false;
+            let mut sse = false;
+            let mut bad_meta = false;
+            for o in &case.ops {
+                match o {
+                    Op::Append { .. } | Op::Register { .. } | Op::Import(_) | Op::Remove(_) => {
+                        if bad_after_mut {
+                            sandwiched = true;
+                        }
+                        seen_mut = true;
+                    }
+                    Op::Bad(b) => {
+                        if seen_mut {
+                            bad_after_mut = true;
+                        }
+                        if matches!(b, BadReq::BadMeta { .. }) {
+                            bad_meta = true;
+                        }
+                    }
+                    Op::Read { path: ReadPath::HttpSse, .. } => sse = true,
+                    _ => {}
+                }
+            }
+            sandwiched || sse || bad_meta
+        }
         _ => false,
     }
 }
